@@ -90,8 +90,12 @@ func runHistory(r *core.Run, cid string, L int) {
 			// are not the client's to touch
 			a, b := s.RandNodePair()
 			before := map[string]core.KV{"acks/": a.DumpPrefix(a.Ctx(), "xibc", []byte("acks/")), "commitments/": a.DumpPrefix(a.Ctx(), "xibc", []byte("commitments/")), "receipts/": a.DumpPrefix(a.Ctx(), "xibc", []byte("receipts/"))}
-			if err := s.ToggleRoundTrip(a, b); err != nil {
-				r.Inconclusive("%s: client toggle failed: %v", cid, err)
+			gov := s.ToggleRoundTrip
+			if rng.Intn(2) == 0 {
+				gov = s.UpgradeClient
+			}
+			if err := gov(a, b); err != nil {
+				r.Inconclusive("%s: client toggle / upgrade failed: %v", cid, err)
 				return
 			}
 			r.Count("client_toggles_round_trip", 1)
